@@ -94,3 +94,9 @@ pub fn run(ctx: &Ctx) {
     ctx.run.sample(json!({"test_cases": ["٣"], "settings": "[d]", "output": Cfg::new(D).build(&["\u{663}".to_string()]).unwrap_or_default()}));
     ctx.run.sample(json!({"test_cases": ["_"], "settings": "[d,W,S]", "output": Cfg::new(D | NW | NS).build(&["_".to_string()]).unwrap_or_default()}));
 }
+
+pub fn replay_case(ctx: &Ctx, tcs: &[String], cfg: &Cfg) {
+    if let Some(c) = tcs.first().and_then(|t| t.chars().next()) {
+        check(ctx, c, cfg.bits, &ctx.k);
+    }
+}
